@@ -355,7 +355,12 @@ def check_gravity(ctx, E, R, P, ekey, lats, hs, clsname):
             sub = [float(x) for x in lats[off:off + nb]]
             if len(sub) < nb:
                 continue
-            for cn, conv in (('ndarray', lambda x: _np.array(x)), ('list', lambda x: list(x))):
+            whole = all(float(x) == int(x) for x in sub)
+            convs = [('ndarray', lambda x: _np.array(x)), ('list', lambda x: list(x))]
+            if whole:       # whole degrees held in integer-typed containers (np.arange(-90, 91, 15) and the like)
+                convs += [('int64 array', lambda x: _np.array(x).astype(_np.int64)), ('int32 array', lambda x: _np.array(x).astype(_np.int32)), ('int list', lambda x: [int(v) for v in x]),
+                          ('float32 array', lambda x: _np.array(x, _np.float32))]
+            for cn, conv in convs:
                 for hu in hs[:2]:
                     try:
                         v = _np.asarray(E.normal_gravity(conv(sub), hu * a) if hu != 0.0 else E.normal_gravity(conv(sub)), float)
@@ -365,8 +370,26 @@ def check_gravity(ctx, E, R, P, ekey, lats, hs, clsname):
                         ctx.evals += 1
                         ctx.fail('normal_gravity(short latitude array) raises', f'{ekey} N={nb} offset={off} as {cn} h={hu:g}a', f'{type(ex).__name__}: {ex}'[:160], 'N values'); continue
                     exp = _np.array([G[(lat, hu)] for lat in lats[off:off + nb]])
-                    ok = v.shape == exp.shape and bool(_np.all(_np.abs(v - exp) <= TOL * _np.abs(exp)))
+                    tl_ = 1e-6 if cn == 'float32 array' else TOL
+                    ok = v.shape == exp.shape and bool(_np.all(_np.abs(v - exp) <= tl_ * _np.abs(exp)))
                     ctx.expect(ok, 'normal_gravity(array of N latitudes, h) = the N scalar answers, for every small N', f'{ekey} N={nb} offset={off} as {cn} h={hu:g}a', v, exp, TOL)
+    # a whole-degree grid held in integer-typed containers: the values of the float scalar route, as floats
+    grid_i = list(range(-90, 91, 15))
+    try:
+        exp_g = _np.array([float(E.normal_gravity(float(l))) for l in grid_i])
+        for cn, conv in (('int64 array (np.arange)', lambda: _np.arange(-90, 91, 15)), ('int32 array', lambda: _np.arange(-90, 91, 15).astype(_np.int32)), ('int list', lambda: list(grid_i)),
+                         ('float64 array', lambda: _np.arange(-90, 91, 15).astype(float))):
+            for hu in hs[:2]:
+                try:
+                    v = _np.asarray(E.normal_gravity(conv(), hu * a) if hu != 0.0 else E.normal_gravity(conv()))
+                except TypeError:
+                    ctx.outcome(('latitude-container-refused', cn)); continue
+                ex_h = exp_g if hu == 0.0 else _np.array([float(E.normal_gravity(float(l), hu * a)) for l in grid_i])
+                ok = v.shape == ex_h.shape and v.dtype.kind == 'f' and bool(_np.all(_np.abs(v.astype(float) - ex_h) <= TOL * _np.abs(ex_h)))
+                ctx.expect(ok, 'normal_gravity(whole-degree grid in an integer-typed container) = the float scalar answers (as floats)', f'{ekey} grid as {cn} h={hu:g}a', v[:4], ex_h[:4], TOL)
+    except Exception as ex:
+        ctx.evals += 1
+        ctx.fail('normal_gravity(whole-degree grid) raises', ekey, f'{type(ex).__name__}: {ex}'[:160], 'values')
     # laws that relate grid points
     for lat in lats:
         for hu in hs:
